@@ -54,7 +54,90 @@ def plan(tier, seed):
     # (stable and buckled states -- the stiffness as assembled from the items is then indefinite)
     for mk, fk in (("quad", "ps"), ("hexahedron", "3d")):
         cases.append(dict(key=f"{mk}/prestress", kind="prestress", mesh=mk, fk=fk, seed=seed, tier=tier, cost=4))
+    # meshes with points that belong to no cell (control points, one block of a merged container), with and without
+    # boundaries: the unknowns of such points are never free
+    for mk, fk in (("hexahedron", "3d"), ("quad", "ps")):
+        cases.append(dict(key=f"{mk}/unattached", kind="unattached", mesh=mk, fk=fk, seed=seed, tier=tier, cost=3))
     return cases
+
+
+def run_unattached(case):
+    """{one extra point, two extra points, a leading extra point} x boundaries {None, empty dict, clamped face}: dof1 = all
+    unknowns of points with cells minus the prescribed ones, returned pairs satisfy K v = lambda M v on dof1 (K, M from the
+    items), extracted modes vanish on unattached and prescribed unknowns"""
+    import felupe as fem
+    from scipy.sparse.linalg import eigsh
+
+    warnings.simplefilter("ignore")
+    key = case["key"]
+    viol, nontrivial, outcomes = [], [], set()
+    st = dict(trans=0, traces=0, states=0)
+
+    def bad(sub, what, obs, exp, tol=0):
+        if len(viol) < 50:
+            viol.append(dict(key=f"{key}/{sub}", what=what, observed=obs, expected=exp, tol=tol))
+
+    mk, fk, seed = case["mesh"], case["fk"], case["seed"]
+    base = zoo.make(mk, "strip", seed)
+    d = base.dim
+    for plab, extra, lead in (("one-extra", 1, False), ("two-extra", 2, False), ("leading-extra", 1, True)):
+        xp = base.points.max(0) + 1.0 + np.arange(extra)[:, None] * np.ones(d)
+        if lead:
+            pts = np.vstack([xp, base.points])
+            cells = base.cells + extra
+            loose = np.arange(extra)
+        else:
+            pts = np.vstack([base.points, xp])
+            cells = base.cells
+            loose = len(base.points) + np.arange(extra)
+        mesh = fem.Mesh(pts, cells, base.cell_type)
+        region = zoo.region(mk, mesh)
+        Fc = fem.Field if fk == "3d" else fem.FieldPlaneStrain
+        for blab in ("None", "empty-dict", "clamped-face"):
+            field = fem.FieldContainer([Fc(region, dim=d)])
+            body = fem.SolidBody(fem.LinearElasticLargeStrain(E=2.0, nu=0.3), field, density=1.5)
+            attached = np.setdiff1d(np.arange(mesh.npoints), loose)
+            if blab == "clamped-face":
+                m_ = np.zeros(mesh.npoints, dtype=bool)
+                m_[attached] = np.isclose(pts[attached, 0], pts[attached, 0].min())
+                bounds = {"fix": fem.Boundary(field[0], mask=m_)}
+                fixed = np.where(m_)[0]
+            else:
+                bounds = None if blab == "None" else {}
+                fixed = np.array([], dtype=int)
+            held = np.union1d(loose, fixed)
+            exp1 = np.setdiff1d(np.arange(mesh.npoints * d), (d * held[:, None] + np.arange(d)).ravel())
+            sub = f"{plab}/boundaries={blab}"
+            job = fem.FreeVibration([body], bounds)
+            v0 = 1.0 + zoo.offarr(seed, 1810, (len(exp1),))
+            st["trans"] += 1
+            try:
+                job.evaluate(solver=lambda A, M, sigma, **kw: eigsh(A, M=M, sigma=-0.7, **kw), k=4, **(dict(v0=v0) if True else {}))
+            except Exception as ex:  # noqa
+                bad(sub + "/exception", "modal analysis of a mesh with points without cells raised", repr(ex)[:160], "eigenpairs on the unknowns of attached points")
+                continue
+            st["states"] += 1
+            if not np.array_equal(np.sort(np.asarray(job.dof1)), exp1):
+                bad(sub + "/dof1", "free unknowns of the analysis = unknowns of points with cells minus the prescribed ones", int(len(job.dof1)), int(len(exp1)))
+                continue
+            K = body.assemble.matrix(field).toarray()[np.ix_(exp1, exp1)]
+            M = body.assemble.mass().toarray()[np.ix_(exp1, exp1)]
+            lam, V = np.asarray(job.eigenvalues), np.asarray(job.eigenvectors)
+            for j in range(len(lam)):
+                res = np.abs(K @ V[:, j] - lam[j] * (M @ V[:, j])).max() / (np.abs(K).max() * np.abs(V[:, j]).max())
+                st["traces"] += 1
+                if not res <= 1e-7:
+                    bad(sub + f"/pair{j}", "K v = lambda M v on the free unknowns", float(res), 0, 1e-7)
+                    break
+            f2, freq = job.extract(n=len(lam) - 1, inplace=False)
+            vals = f2[0].values
+            st["traces"] += 1
+            if len(held) and np.abs(vals[held]).max() > 0:
+                bad(sub + "/extract", "extracted mode on unattached / prescribed points", float(np.abs(vals[held]).max()), 0)
+            nzero = int((np.abs(lam) < 1e-8 * np.abs(K).max()).sum())
+            outcomes.add(f"zero-modes={nzero}")
+            nontrivial.append(sub)
+    return dict(viol=viol, states=st["states"], transitions=st["trans"], traces=st["traces"], nontrivial=nontrivial, outcomes=sorted(outcomes), sample=dict(case=key), notes=[], digest=f"{st['states']}/{st['traces']}/{len(viol)}")
 
 
 PRESTRAIN = [-0.3, -0.15, -0.05, 0.0, 0.1, 0.3]
@@ -364,6 +447,8 @@ def run(case):
         return run_items(case)
     if case.get("kind") == "prestress":
         return run_prestress(case)
+    if case.get("kind") == "unattached":
+        return run_unattached(case)
     warnings.simplefilter("ignore")
     key = case["key"]
     viol, nontrivial, outcomes, notes = [], [], set(), []
